@@ -25,7 +25,7 @@ def tier_params(tier):
 def prepare(check, tier, profiles=None, n_per_profile=None):
     global _DESCS
     p = tier_params(tier)
-    profiles = profiles or ["bitfield", "array", "payload", "inherit", "enum", "groups", "small", "structs", "hostile"]
+    profiles = profiles or ["bitfield", "array", "payload", "inherit", "enum", "groups", "small", "structs", "hostile", "matrix"]
     ds = corpus.descriptions(check.seed, n_per_profile or p["n_per_profile"], profiles, shuffle=False)
     _DESCS = ds
     return _DESCS
@@ -92,19 +92,18 @@ def worker(task):
                 res["harness_timeouts"] = res.get("harness_timeouts", 0) + 1   # infrastructure, not a verdict
                 continue
             if "exc" in e:
-                V("C19", "serialize-throws:%s|%s" % (exc_class(e), hazard(m, tid)), dict(case, observed=_brief(e)))
+                V("C19", _sig(m, tid, "serialize", "serialize-throws:%s" % exc_class(e), "value"), dict(case, observed=_brief(e)))
                 continue
             res["nontrivial"].add(common.h(d["name"], tid, want))
             if e.get("hex") != want:
                 off = rustwl._first_diff(bytes.fromhex(e.get("hex", "")), bytes(enc.data))
-                hz = hazard(m, tid)
-                V("C19", "wrong-bytes|%s" % (hz if hz != "plain" else rustwl._locate(m, enc, off)), dict(case, observed=e.get("hex"), first_diff=off))
+                V("C19", _sig(m, tid, "serialize", "wrong-bytes", rustwl._locate(m, enc, off)), dict(case, observed=e.get("hex"), first_diff=off))
                 continue
             res["c07"].setdefault(tid, []).append((json.dumps(v, sort_keys=True), e["hex"]))
             if e.get("reparse_equals") is False and e.get("reparse_class") in (None, e.get("class")):
                 # (a fallback object whose payload happens to parse as a child legitimately reparses
                 # as that child: not comparable)
-                V("C19", "reparse-of-own-bytes-not-equal|%s" % hazard(m, tid),
+                V("C19", _sig(m, tid, "parse", "reparse-of-own-bytes-not-equal", "value"),
                   dict(case, observed=_brief(e)))
             if len(res["samples"]) < 1:
                 res["samples"].append({"desc": d["name"], "type": tid, "value": v, "java_hex": e["hex"]})
@@ -120,9 +119,14 @@ def worker(task):
                 res["ops"]["parse"] = res["ops"].get("parse", 0) + 1
                 tclass = tag.split(":")[0]
                 res["classes"][tclass] = res["classes"].get(tclass, 0) + 1
-                exp = rustwl.expectation(m, tid, b)
+                # an intermediate child (it has a payload of its own) is an abstract class whose static
+                # fromBytes(byte[]) *is* the root's: judge the call as what it is
+                jt = tid
+                if m.dm[tid].get("parent_id") and A.get_payload(m.dm[tid]) is not None:
+                    jt = m.chain(m.dm[tid])[0]["id"]
+                exp = rustwl.expectation(m, jt, b)
                 where = rustwl.where_of(m, exp)
-                case = {"type": tid, "op": "parse", "hex": b.hex(), "input_class": tag,
+                case = {"type": tid, "judged_as": jt, "op": "parse", "hex": b.hex(), "input_class": tag,
                         "model": exp[0] if exp[0] != "fault" else {"fault": exp[1], "at": exp[2]}}
                 if r.get("timeout") or r.get("crash"):
                     # re-run alone with a long deadline before calling it non-termination
@@ -132,7 +136,7 @@ def worker(task):
                     finally:
                         h.timeout = old_to
                     if r.get("timeout") or r.get("crash"):
-                        V("C19", "parser-hangs-or-dies|%s" % hazard(m, tid), dict(case, observed=_brief(r)))
+                        V("C19", _sig(m, tid, "parse", "parser-hangs-or-dies", "input"), dict(case, observed=_brief(r)))
                         continue
                     res["slow_inputs"] = res.get("slow_inputs", 0) + 1
                 if exp[0] == "abstain":
@@ -144,62 +148,71 @@ def worker(task):
                     res["rejected"] += 1
                     res["exc"][exc_class(r)] = res["exc"].get(exc_class(r), 0) + 1
                     if exp[0] == "ok":
-                        hz = hazard(m, tid)
-                        V("C19", "rejects-valid:%s|%s" % (exc_class(r), hz if hz != "plain" else where), dict(case, observed=_brief(r)))
+                        if A.children_of(m.file, jt):
+                            # the reference accepts the bytes as the *parent*; Java has no parent object, only
+                            # children: a child whose constraints match and whose payload does not parse is an
+                            # exception here, exactly as specialize() is an error in Rust
+                            try:
+                                if ("err",) in m.specialize(jt, exp[1])[0]:
+                                    res["dispatch"]["matching-child-does-not-parse"] = res["dispatch"].get("matching-child-does-not-parse", 0) + 1
+                                    continue
+                            except Abstain:
+                                continue
+                        V("C19", _sig(m, tid, "parse", "rejects-valid:%s" % exc_class(r), where), dict(case, observed=_brief(r)))
                     continue
                 res["accepted"] += 1
                 if exp[0] == "fault":
-                    hz = hazard(m, tid)
-                    V("C19", "accepts-invalid:%s|%s" % (exp[1][0], hz if hz != "plain" else ("inside-array-element" if (len(exp) > 3 and exp[3]) else where)),
-                      dict(case, observed=_brief(r)))
+                    V("C19", _sig(m, tid, "parse", "accepts-invalid:%s" % exp[1][0],
+                                  "inside-array-element" if (len(exp) > 3 and exp[3]) else where), dict(case, observed=_brief(r)))
                     continue
                 cls = r.get("class", "")
+                if cls.startswith("Unknown") and cls[7:] in m.dm and cls[7:] != jt:
+                    cls = cls[7:]   # the fallback object of an intermediate child X is an X
                 want_v = exp[1]
                 got = r.get("ok")
-                if cls != tid and cls in m.dm and isinstance(want_v, dict):
+                if cls != jt and cls in m.dm and isinstance(want_v, dict):
                     # a descendant object: its own payload replaces the ancestor's, and fields it
                     # constrains are constants, not members
                     ccons = {i: m.constraint_int(m.dm[cls], c) for i, c in m.all_constraints(m.dm[cls]).items()}
                     bad_const = [k for k, x in want_v.items() if k in ccons and ccons[k] != x]
                     if bad_const:
-                        V("C19", "dispatch-selects-child-whose-constraint-fails|%s" % hazard(m, tid),
+                        V("C19", _sig(m, tid, "parse", "dispatch-selects-child-whose-constraint-fails", "dispatch"),
                           dict(case, observed_class=cls, expected=want_v))
                         continue
                     want_v = {k: x for k, x in want_v.items() if k != "payload" and k not in ccons}
-                elif cls != tid and isinstance(want_v, dict) and "payload" in want_v:
+                elif cls != jt and isinstance(want_v, dict) and "payload" in want_v:
                     want_v = {k: x for k, x in want_v.items() if k != "payload"}
                 if not match(got, want_v):
-                    hz = hazard(m, tid)
-                    V("C19", "wrong-field-values|%s" % (hz if hz != "plain" else rustwl._diff_where(m, tid, got or {}, want_v)),
+                    V("C19", _sig(m, tid, "parse", "wrong-field-values", rustwl._diff_where(m, jt, got or {}, want_v)),
                       dict(case, observed=got, expected=want_v, observed_class=cls))
                     continue
                 # dispatch
-                if A.children_of(m.file, tid):
+                if A.children_of(m.file, jt):
                     try:
-                        outcomes, expected, widened = m.specialize(tid, exp[1])
+                        outcomes, expected, widened = m.specialize(jt, exp[1])
                     except Abstain:
                         continue
-                    kids = {c["id"] for c in A.children_of(m.file, tid)}
+                    kids = {c["id"] for c in A.children_of(m.file, jt)}
                     desc_ids = set()
 
                     def walk(x):
                         for c in A.children_of(m.file, x):
                             desc_ids.add(c["id"])
                             walk(c["id"])
-                    walk(tid)
+                    walk(jt)
                     if cls in desc_ids:
                         gotk = "child"
-                    elif cls.startswith("Unknown") or cls == tid:
+                    elif cls.startswith("Unknown") or cls == jt:
                         gotk = "fallback"
                     else:
                         gotk = "other:" + cls
                     res["dispatch"][gotk] = res["dispatch"].get(gotk, 0) + 1
                     must_child = all(o[0] == "child" for o in outcomes)
                     if must_child and gotk != "child" and not widened:
-                        V("C19", "dispatch-misses-matching-child|%s" % hazard(m, tid), dict(case, observed_class=cls,
+                        V("C19", _sig(m, tid, "parse", "dispatch-misses-matching-child", "dispatch"), dict(case, observed_class=cls,
                                                                                                admissible=sorted(map(list, outcomes))))
                     elif gotk == "child" and ("none",) in outcomes and len(outcomes) == 1:
-                        V("C19", "dispatch-selects-child-without-match|%s" % hazard(m, tid), dict(case, observed_class=cls))
+                        V("C19", _sig(m, tid, "parse", "dispatch-selects-child-without-match", "dispatch"), dict(case, observed_class=cls))
     finally:
         h.close()
     return _fin(res)
@@ -245,13 +258,27 @@ def width_ctx(m, tid, v=None):
     return "chunks:" + ("+".join(str(w) for w in odd) if odd else "8/16/32/64-only")
 
 
-def hazard(m, tid):
+def _sig(m, tid, side, failure, precise):
+    """Signature of a C19 event. A type that runs through one of the backend's recorded broken code paths
+    (hazard) yields garbage of every kind downstream - wrong values, wrong acceptance, wrong dispatch,
+    exceptions of any class - so for such a type the event is keyed on the root cause and the side
+    (`parse-diverges|oddchunk`); the failure class stays in the replay. Types free of hazards keep the
+    precise key (failure class + construct)."""
+    hz = hazard(m, tid, side)
+    if hz != "plain":
+        return "%s-diverges|%s" % (side, hz)
+    return "%s|%s" % (failure, precise)
+
+
+def hazard(m, tid, side=None):
     """primary known-defect hazard present in a type (own + ancestors + nested structs): the Java
     backend's recorded root causes each belong to one emitted code path
       oddchunk  : a chunk / array element of 24, 40, 48 or 56 bits (Utils.get24/40/48/56 shift the wrong way)
       intshift  : a chunk wider than 32 bits holding a member of Java type <= int that ends above bit 32
       smallsize : a size / count field of exactly 8 or 16 bits (held in a Java byte / short and sign-extended)
       sizemod   : a size modifier (operator precedence in the generated subtraction)
+      struct-tree-field : a field / element whose struct type has a parent or children (the field's parser is
+                  the root struct's fromBytes over the *whole* remaining buffer)
       plain     : none of these"""
     found = set()
 
@@ -301,7 +328,14 @@ def hazard(m, tid):
         return x.get("parent_id") and not x.get("constraints") and m.static_bits_decl(x["id"]) is None
     if unconstrained(d) or any(unconstrained(c) for c in m.descendants(tid)):
         found.add("unconstrained-dynamic-child")
-    for h in ("oddchunk", "intshift", "smallsize", "sizemod", "unconstrained-dynamic-child"):
+    if rustwl.struct_tree_field(m, tid, derived_only=False):
+        found.add("struct-tree-field")
+    # each root cause sits on one side: the parser reads odd chunks / small sizes / modifiers wrongly, the
+    # serializer shifts in int; a hazard of the other side does not explain an event on this one
+    order = {"parse": ("oddchunk", "smallsize", "sizemod", "unconstrained-dynamic-child", "struct-tree-field"),
+             "serialize": ("oddchunk", "intshift")}.get(
+        side, ("oddchunk", "intshift", "smallsize", "sizemod", "unconstrained-dynamic-child", "struct-tree-field"))
+    for h in order:
         if h in found:
             return h
     return "plain"
